@@ -222,6 +222,11 @@ def db_run(spec, seq, mode, seed):
         st = sigs.real_simulate(sig0, 'vapp', [sigs.real_mutation(m) for m in seq])
         if st[0] != 'ok':
             return {'error': 'stepwise simulation: %r' % (st,)}
+        from .c11 import dangling
+        if dangling(st[1], set()):
+            # the final models would hold a relation to a deleted model: they cannot be installed, so this
+            # sequence has no "current models" to evolve to (the batched AppMutator run still covers it)
+            return {'skip': 'final models are not installable'}
         target = dbrig.spec_from_sig(st[1])
         target['apps'] = [a for a in target['apps'] if a['id'] == 'vapp']
         evorig.install_models(target)
@@ -252,6 +257,9 @@ def db_case(ctx, spec, seq, seed, witnesses, rewritten):
     rep = {'kind': 'db', 'spec': spec, 'mutations': seq, 'seed': seed}
     for mode in ('batched', 'evolver'):
         B = db_run(spec, seq, mode, seed)
+        if 'skip' in B:
+            ctx.count('db:%s skipped (%s)' % (mode, B['skip']))
+            continue
         ctx.count('db:%s' % mode)
         if 'error' in B:
             r = dict(rep, mode=mode, observed=B['error'])
